@@ -23,6 +23,7 @@ type StateDBWrapper struct {
 	accessedObjAddrs map[common.Address]int
 	snapshot         int
 	exec             bool
+	txhash           bytes.HexBytes
 
 	logger tmlog.Logger
 	mtx    sync.RWMutex
@@ -45,6 +46,7 @@ func NewStateDBWrapper(db ethdb.Database, rootHash bytes.HexBytes, acctHandler c
 func (s *StateDBWrapper) Prepare(txhash bytes.HexBytes, txidx int, from, to types2.Address, snap int, exec bool) {
 	s.exec = exec
 	s.snapshot = snap
+	s.txhash = txhash
 	s.StateDB.Prepare(txhash.Array32(), txidx)
 
 	s.AddAddressToAccessList(from.Array20())
@@ -61,6 +63,11 @@ func (s *StateDBWrapper) Finish() {
 		acct := s.acctHandler.FindOrNewAccount(addr[:], s.exec)
 		acct.SetBalance(amt)
 		acct.SetNonce(nonce)
+		if acct.GetCode() == nil && s.StateDB.GetCodeSize(addr) > 0 {
+			// a contract created by another contract: it gets the code marker (the hash of the creating tx)
+			// like a directly deployed one, otherwise a plain transfer to it would not run its code.
+			acct.SetCode(s.txhash)
+		}
 
 		_ = s.acctHandler.SetAccountCommittable(acct, s.exec)
 
